@@ -86,22 +86,35 @@ def nonRecRules (p : Program) : List Rule := p.filter (fun r => !selfRec p r.hre
 
 def allOff (cfg : Cfg) : Bool := !(cfg.jp || cfg.sip || cfg.ss || cfg.bs || cfg.ms)
 
-/-- some switch is on and the model engine *without* switches answers the least model on this
-    input: the failure is due to the switch-controlled passes (the subject of C02/C05). -/
-def switchDependent (cfg : Cfg) (p : Program) (edb : DB) (want : String) : Bool :=
-  !allOff cfg && (Engine.run {} (fun _ => 0) (fun _ ts => ts) 64 p edb).toWire == want
+/-- an atom in which some variable occurs twice. -/
+def atomRepeatsVar (a : Atom) : Bool :=
+  let vs := a.vars
+  vs.length != (dedupS vs).length
 
-def classify (cfg : Cfg) (p : Program) (edb : DB) (want : String) : String :=
+/-- join planning on, and a rule of a non-recursive head that joins (≥ 2 positive atoms) has an
+    atom with a repeated variable: the planner rebuilds the join without the scan's
+    column-equality filter / with shifted key columns. -/
+def repeatedVarUnderJoinPlanning (cfg : Cfg) (p : Program) : Bool :=
+  cfg.jp && (nonRecRules p).any (fun r => r.posAtoms.length ≥ 2 && r.posAtoms.any atomRepeatsVar)
+
+/-- join planning on and a multi-clause head one of whose clauses joins. -/
+def unionWithJoinUnderJoinPlanning (cfg : Cfg) (p : Program) : Bool :=
+  cfg.jp && (heads p).any (fun h => (clausesOf p h).length ≥ 2 && (clausesOf p h).any (fun r => r.posAtoms.length ≥ 2))
+
+/-- SIP on and the answered head has several clauses (direct API). -/
+def lastHeadMultiClauseWithSip (cfg : Cfg) (p : Program) : Bool :=
+  cfg.sip && (clausesOf p (answeredRel p)).length ≥ 2
+
+def classify (cfg : Cfg) (p : Program) (_edb : DB) (_want : String) : String :=
   if hasMutualRecursiveScc p then "has_mutual_recursive_scc"
   else if queryRel p != answeredRel p then "last_rule_head_not_last_head"
   else if p.any sameRelWildcard then "same_relation_wildcard_position"
   else if p.any droppedEquality then "equality_on_computed_variable"
   else if p.any aggNotLast then "aggregate_not_last_in_head"
   else if (nonRecRules p).any pushdownShift then "filter_pushdown_key_shift"
-  else if cfg.jp && (heads p).any (fun h => (clausesOf p h).length ≥ 2 && (clausesOf p h).any (fun r => r.posAtoms.length ≥ 2)) then
-    "union_with_join_under_join_planning"
-  else if cfg.sip && (clausesOf p (answeredRel p)).length ≥ 2 then "last_head_multi_clause_with_sip"
-  else if switchDependent cfg p edb want then "switch_dependent_answer"
+  else if unionWithJoinUnderJoinPlanning cfg p then "union_with_join_under_join_planning"
+  else if lastHeadMultiClauseWithSip cfg p then "last_head_multi_clause_with_sip"
+  else if repeatedVarUnderJoinPlanning cfg p then "repeated_var_in_scan_under_join_planning"
   else "unclassified"
 
 /-- Spec verdict on the implementation's output. -/
